@@ -270,6 +270,10 @@ _STD = '!%s & r3==0' % _SOR
 _PLUS = _STD + ' & r9.1 is None'
 _NOPLUS = _STD + ' & r9.1 is Some'
 _RPS = '(%s & `r10.0 has REFERENCE_PICTURE_SELECTION` | %s & `r9.0 has REFERENCE_PICTURE_SELECTION`)' % (_PLUS, _STD)
+_RPR = '(%s & `r10.0 has REFERENCE_PICTURE_RESAMPLING` | %s & `r9.0 has REFERENCE_PICTURE_RESAMPLING`)' % (_PLUS, _STD)
+_DIFF = ('previous_picture is Some & (%s & !`r10.3 has HAS_CUSTOM_FORMAT` & `map(previous_picture, {closure#1}(r10.1))` | %s & `r10.3 has HAS_CUSTOM_FORMAT` & '
+         '`map(previous_picture, {closure#1}(Some(Extended(r12))))` | %s & `map(previous_picture, {closure#1}(Some(r9.1.as1.0.0)))`)' % (_PLUS, _PLUS, _NOPLUS))
+_RPRP = '%s & (%s | %s)' % (_STD, _RPR, _DIFF)
 _PB = '(%s & r10.2 is PbFrame/ImprovedPbFrame | %s & r9.1.as1.0.1 is PbFrame/ImprovedPbFrame)' % (_PLUS, _NOPLUS)
 PICTURE_FIELDS = ['version', 'temporal_reference', 'format', 'options', 'has_plusptype', 'has_opptype', 'picture_type', 'motion_vector_range', 'slice_submode',
                   'scalability_layer', 'reference_picture_selection_mode', 'prediction_reference', 'backchannel_message', 'reference_picture_resampling',
@@ -295,7 +299,7 @@ SPEC_PICTURE = {
         ('decode_uui', None, _fol('HAS_MOTION_VECTOR_RANGE')), ('decode_sss', None, _fol('HAS_SLICE_STRUCTURED_SUBMODE')),  # r15, r16
         ('decode_elnum_rlnum', None, _STD + ' & `decoder_options has USE_SCALABILITY_MODE`'),                                  # r17
         ('decode_rpsmf', None, _fol('HAS_REFERENCE_PICTURE_SELECTION_MODE')), ('decode_trpi', None, _RPS), ('decode_bcm', None, _RPS),   # r18..r20
-        ('decode_rprp', None, None),                                          # r21: presence depends on the previous picture's format (an opaque comparison); checked for position only
+        ('decode_rprp', None, _RPRP),                                         # r21: RPR mode, or a previous picture exists and its format differs from this one's (closure checked by rule A)
         ('read_bits', '5', _STD),                                           # r22 PQUANT
         ('decode_cpm_and_psbi', None, _NOPLUS),                             # r23
         ('decode_trb', None, _PB), ('decode_dbquant', None, _PB),           # r24, r25
@@ -583,6 +587,18 @@ def picture(ck, F):
     if fields is None and adt: fields = [f['name'] for f in adt.get('fields', [])]
     if fields != PICTURE_FIELDS:
         ck.violation('A', 'A : types::Picture : fields', None, 'types::Picture has fields %s; the table was written for %s' % (fields, PICTURE_FIELDS)); return
+    # the format comparison used in the RPRP presence condition: |p| p.format != format
+    from ..dataflow import expr_of, expr_str, ematch
+    cn = name + '::{closure#1}'
+    try:
+        cb = F.body(cn)
+        ce = expr_of(F, cb, {'o': 'copy', 'p': {'l': 0, 'proj': []}})
+        up = {v: int(k) for k, v in cb.get('upvars', {}).items()}
+        okc = 'format' in up and ematch(('callp', 'PartialEq::ne', ('param', 2, (PICTURE_FIELDS.index('format'),)), ('param', 1, (up['format'],))), ce) is not None
+        if okc: ck.ok('A', 'RPRP presence: the closure compares the previous picture\'s format with this picture\'s format (p.format != format)', where_of(cb))
+        else: ck.violation('A', 'A : decode_picture : format comparison', where_of(cb), 'the closure of the RPRP presence condition is %s, expected p.format != format' % expr_str(ce, cb.get('debug', {})))
+    except (KeyError, Unanalysable) as e:
+        ck.violation('A', 'A : decode_picture : format comparison missing', where_of(b), 'closure %s not found (%s)' % (cn, e))
     rename = match_reads(ck, T, fn, spec['reads'], b)
     if rename is None: return
     ret = dict(spec['ret']); ret.update(spec['flags'])
